@@ -37,6 +37,9 @@ pub enum Kind {
     EightW1,
     /// a root tree of height 15 with an aux buffer that caches levels larger than 64 KiB
     TallAux(bool),
+    /// a valid 2-level key at its last / second-to-last leaf with a stale (valid-looking) parameter
+    /// byte behind the 0xff terminator: (position 3..8, byte, counter from the end)
+    StaleSlot(u8, u8, u8),
 }
 
 #[derive(Clone, Debug, Serialize, Deserialize)]
@@ -308,6 +311,23 @@ pub fn check(c: &Case) -> Verdict {
             };
             aux_exercise_shape(h, &shape, v, *keygen, &format!("a recycled aux buffer of {} bytes (first byte 0, leftovers behind it) for a root of height {}", len, shape[0].1))
         }
+        Kind::StaleSlot(pos, v, from_end) => {
+            let total: u64 = 1u64 << base.iter().map(|l| l.1).sum::<u32>();
+            let mut b = hss::private_key_blob(&base, total - 1 - (*from_end as u64 % 2), &seed);
+            b[8 + 3 + (*pos as usize % 5)] = *v;
+            let r = exercise_blob(h, &b, &format!("a valid key near its end with a stale byte {:#04x} behind the parameter terminator", v));
+            // what was handed over at the last leaf must not be usable again
+            if r.is_ok() && *from_end % 2 == 0 {
+                let (_, calls) = libapi::sign(h, b"c11 message", &b, Cb::Accept, None);
+                if let Some(next) = calls.first() {
+                    let (o2, calls2) = libapi::sign(h, b"again", next, Cb::Accept, None);
+                    if o2.is_ok() || !calls2.is_empty() {
+                        return fail("exhausted-key-usable", format!("the key handed over after the last leaf signs again (stale parameter byte {:#04x} at position {})", v, 3 + pos % 5));
+                    }
+                }
+            }
+            r
+        }
         Kind::TallAux(keygen) => {
             let shape: Vec<Level> = vec![(2, 15)];
             let budget = 4 + n + (n << 15) + (n << 13) + (n << 11) + 500;
@@ -402,6 +422,13 @@ pub fn run(ctx: &Ctx) {
         for w in [0u32, 1, 2, 0x8000_0000, 0xffff_ffff, 0x7fff_ffff, 0x83ff_ffff, 0x8200_0000, 0x8000_0001, 0x8000_0020] {
             items.push(Case { hash: *h, kind: Kind::AuxLevelWord(w, true) });
             items.push(Case { hash: *h, kind: Kind::AuxLevelWord(w, false) });
+        }
+        for pos in 0..5u8 {
+            for v in [0x14u8, 0x13, 0x54, 0x61, 0x00, 0xfe] {
+                for from_end in 0..2u8 {
+                    items.push(Case { hash: *h, kind: Kind::StaleSlot(pos, v, from_end) });
+                }
+            }
         }
         if h.n() == 32 {
             // a well-formed 8 x W1/H2 key (listed known finding siglen>65535): always exercised
